@@ -97,6 +97,28 @@ pub fn state_step(op: u8) {
     std::mem::forget((delta, peer_copy, st));
 }
 
+/// state level, clock only: whatever delta is applied (any stamp, ANY source replica including this node's
+/// own id — its own pre-restart stamps come back through recovery and re-sync), the clock ends strictly
+/// above the delta's time and above its previous value, and never below a stored stamp
+pub fn apply_advances_clock() {
+    let me = ReplicaId(1);
+    let mut st = ShardReplicaState::new(me, ConsistencyLevel::Eventual);
+    let t0 = vs::u64();
+    vs::assume(t0 < (1 << 62));
+    st.lamport_clock.time = t0;
+    let rts = any_clock();
+    let rb = vs::u8();
+    let rtomb = vs::bool();
+    st.apply_remote_delta(ReplicationDelta::new("k".to_string(), lww_rv(rb, rtomb, rts, None), ReplicaId(rts.replica_id.0)));
+    vcheck!(st.lamport_clock.time > rts.time, "apply:clock advances past the applied stamp");
+    vcheck!(st.lamport_clock.time > t0, "apply:clock advances past its previous value");
+    vcheck!(st.lamport_clock.replica_id == me, "apply:clock keeps this node's id");
+    vcheck!(st.replicated_keys.get("k").map(|v| v.timestamp == rts).unwrap_or(false), "apply:value installed with its stamp");
+    vcover!(rts.replica_id == me, "delta stamped by this node itself");
+    vcover!(rts.time > t0, "delta ahead of the local clock");
+    std::mem::forget(st);
+}
+
 pub fn twin() {
     let mut clock = LamportClock { time: vs::u64(), replica_id: ReplicaId(1) };
     vs::assume(clock.time < (1 << 62));
